@@ -1322,7 +1322,7 @@ class Interp:
 
     def exec_exitstack(self, stmt, item, body, st: St, fr: DynFrame):
         """ExitStack: exits every entered context; may swallow what they swallow"""
-        entered = []
+        entered, managers = [], []
         for node in ast.walk(stmt):
             if isinstance(node, ast.Call) and isinstance(node.func, ast.Attribute) \
                     and node.func.attr == 'enter_context' and node.args:
@@ -1331,6 +1331,11 @@ class Interp:
                         callee = Callee(self.p.functions[term[1]], term[2])
                         if callee not in entered:
                             entered.append(callee)
+                    elif term[0] == 'inst' and self.p.find_method(term[1], '__exit__') \
+                            and self.p.find_method(term[1], '__enter__'):
+                        callee = Callee(self.p.find_method(term[1], '__exit__'), term[1])
+                        if callee not in managers:
+                            managers.append(callee)
                     else:
                         raise AnalysisError('enter_context of unresolved %s at %s:%d' % (
                             ast.unparse(node.args[0]), fr.fn.module.relpath, node.lineno))
@@ -1338,10 +1343,15 @@ class Interp:
         for callee in entered:
             summ = self.summary(callee)
             swallow |= self._ctx_swallows(callee, summ)
-        self._emit(st, 'exitstack-enter', stmt, fr, entered=entered)
+        for callee in managers:
+            # a context manager class: __exit__ may answer true for these exceptions
+            for cls in SIGNALS + (USER_EXC,):
+                if self.summary(callee, 'exc:' + cls).ret_truth in ('may', 'always'):
+                    swallow.add(cls)
+        self._emit(st, 'exitstack-enter', stmt, fr, entered=entered, managers=managers)
         results = []
         for out, s in body(st):
-            self._emit(s, 'exitstack-exit', stmt, fr, entered=entered, outcome=out[0])
+            self._emit(s, 'exitstack-exit', stmt, fr, entered=entered, managers=managers, outcome=out[0])
             if out[0] == 'raise' and any(self.p.is_subclass(out[1].cls, c) for c in swallow):
                 s2 = s.fork()
                 self._emit(s2, 'swallow', stmt, fr, exc=out[1].cls)
@@ -1373,11 +1383,89 @@ class Interp:
                 if m_exit:
                     leave.append(Callee(m_exit, term[1]))
         self._emit(st, 'with-enter', stmt, fr, callees=enter, expr=item.context_expr)
+        modelled = bool(types) and all(t[0] == 'inst' for t in types) and \
+            len(enter) == len(leave) == len(types) and \
+            all(c.fn.kind == 'sync' for c in enter + leave)
+        if not modelled:
+            results = []
+            for out, s in body(st):
+                self._emit(s, 'with-exit', stmt, fr, callees=leave, outcome=out[0],
+                           expr=item.context_expr)
+                results.append((out, s))
+            return results
+        # a context manager class of the package: entering calls __enter__; leaving calls
+        # __exit__ with what is pending, and a true result swallows it
+        raised = []
+        entered = self._call_effect(item.context_expr, enter, [], st, fr, raised,
+                                    how='with-enter')
+        results = list(raised)
+        for start in entered:
+            for out, s in body(start):
+                if out[0] == 'raise':
+                    which = 'genexit' if out[1].cls == GENEXIT else 'exc:' + out[1].cls
+                else:
+                    which = 'none'
+                self._emit(s, 'with-exit', stmt, fr, callees=leave, outcome=out[0],
+                           expr=item.context_expr, which=which)
+                results.extend(self._with_exit(item, leave, out, s, fr, which))
+        return results
+
+    def _with_exit(self, item, leave, pending, st: St, fr: DynFrame, which):
+        """[(outcome, state)] after ``__exit__`` ran for the ``pending`` outcome"""
+        node = item.context_expr
         results = []
-        for out, s in body(st):
-            self._emit(s, 'with-exit', stmt, fr, callees=leave, outcome=out[0],
-                       expr=item.context_expr)
-            results.append((out, s))
+        if fr.depth < self.max_depth and self.inline is not None and len(leave) == 1 and \
+                self.inline(leave[0], fr.depth) and not self.summary(leave[0], which).cyclic:
+            callee = leave[0]
+            self._emit(st, 'enter', node, fr, callee=callee, how='with-exit', which=which,
+                       expr=node)
+            sub = DynFrame(Frame(callee.fn, callee.recv), depth=fr.depth + 1,
+                           assume=self.assume_for(callee, which),
+                           ptypes=self.ptypes_for(callee, which), want_truth=True)
+            saved_facts = st.facts
+            st.facts = dict(sub.assume) if sub.assume else {}
+            self.stats['functions'].add(callee.key())
+            for out, s in self.exec_block(callee.fn.node.body, st, sub):
+                s.facts = {k: v for k, v in saved_facts.items()
+                           if k[0] in ('isnone', 'is') and not _fact_has_attr(k)}
+                self._emit(s, 'leave', node, fr, callee=callee, how='with-exit',
+                           outcome=out[0], ret=out[1] if out[0] == 'return' else None)
+                if out[0] == 'raise':
+                    results.append((out, s))
+                elif out[0] in ('normal', 'return'):
+                    truth = out[2] if out[0] == 'return' and len(out) > 2 else False
+                    if pending[0] == 'raise' and truth:
+                        self._emit(s, 'swallow', node, fr, exc=pending[1].cls)
+                        results.append((NORMAL, s))
+                    else:
+                        results.append((pending, s))
+                else:
+                    raise AnalysisError('break/continue escaping %s' % callee)
+            return results
+        summaries = [self.summary(c, which) for c in leave]
+        raises = set()
+        for summ in summaries:
+            raises |= summ.may_raise
+        for cls in sorted(raises):
+            s = st.fork()
+            event = self._emit(s, 'call', node, fr, exit=cls, callees=leave, externals=[],
+                               how='with-exit', pure=False)
+            self._kill_call_generic(s)
+            results.append((('raise', Exc(cls, event)), s))
+        if any(summ.returns for summ in summaries):
+            self._emit(st, 'call', node, fr, exit='normal', callees=leave, externals=[],
+                       how='with-exit', pure=False)
+            self._kill_call_generic(st)
+            if pending[0] == 'raise':
+                truth = _join_truth([summ.ret_truth for summ in summaries])
+                if truth in ('may', 'always'):
+                    s2 = st.fork() if truth == 'may' else st
+                    self._emit(s2, 'swallow', node, fr, exc=pending[1].cls)
+                    results.append((NORMAL, s2))
+                if truth in ('may', 'never'):
+                    results.append((pending, st))
+            else:
+                results.append((pending, st))
         return results
 
     def st_AsyncWith(self, stmt, st, fr, index=0):
@@ -1924,7 +2012,8 @@ class Interp:
             return results
         # creating a coroutine / generator object runs nothing
         if (fr.depth < self.max_depth and self.inline is not None and len(sync) == 1
-                and len(callees) == 1 and not externals and how in ('call', 'property')
+                and len(callees) == 1 and not externals
+                and how in ('call', 'property', 'with-enter')
                 and self.inline(sync[0], fr.depth) and not self.summary(sync[0]).cyclic):
             results = []
             for out, s in self._inline_call(node, how, sync[0], st, fr, None, None, None):
